@@ -1,0 +1,124 @@
+//go:build verif
+// +build verif
+
+package vm
+
+import (
+	"reflect"
+	"runtime"
+
+	"github.com/holiman/uint256"
+)
+
+// Verification hooks for property C11 (build tag verif only).  Thin read-only
+// accessors to the jump table the interpreter built for an EVM, and a probe that
+// evaluates an operation's memorySize / dynamicGas functions the way the
+// interpreter loop does, without resizing memory or executing the operation.
+
+// VerifOpInfo describes one defined entry of a jump table.
+type VerifOpInfo struct {
+	Op         OpCode
+	Name       string
+	Pops       int
+	Pushes     int
+	ConstGas   uint64
+	HasDynGas  bool
+	HasMemSize bool
+	Halts      bool
+	Jumps      bool
+	Writes     bool
+	Reverts    bool
+	Returns    bool
+	DynGasFn   string
+	MemSizeFn  string
+}
+
+func verifFuncName(f interface{}) string {
+	v := reflect.ValueOf(f)
+	if v.Kind() != reflect.Func || v.IsNil() {
+		return ""
+	}
+	if fn := runtime.FuncForPC(v.Pointer()); fn != nil {
+		return fn.Name()
+	}
+	return ""
+}
+
+// VerifJumpTable lists the defined operations of the jump table of evm's interpreter.
+func VerifJumpTable(evm *EVM) []VerifOpInfo {
+	in, ok := evm.interpreter.(*EVMInterpreter)
+	if !ok {
+		return nil
+	}
+	var out []VerifOpInfo
+	for i, op := range in.jumpTable {
+		if op == nil {
+			continue
+		}
+		out = append(out, VerifOpInfo{
+			Op:         OpCode(i),
+			Name:       OpCode(i).String(),
+			Pops:       op.minStack,
+			Pushes:     int(StackLimit) + op.minStack - op.maxStack,
+			ConstGas:   op.constantGas,
+			HasDynGas:  op.dynamicGas != nil,
+			HasMemSize: op.memorySize != nil,
+			Halts:      op.halts,
+			Jumps:      op.jumps,
+			Writes:     op.writes,
+			Reverts:    op.reverts,
+			Returns:    op.returns,
+			DynGasFn:   verifFuncName(op.dynamicGas),
+			MemSizeFn:  verifFuncName(op.memorySize),
+		})
+	}
+	return out
+}
+
+// VerifGasProbe evaluates, for operation op of evm's jump table, the requested
+// memory size and the dynamic gas exactly as EVMInterpreter.Run does before it
+// resizes memory and executes the operation.  stack lists the operand stack
+// bottom first; memLen is the current memory length in bytes (small).  status is
+// "ok", "undefined", "memsize-overflow", "memsize-mul-overflow" or "err:<text>".
+func VerifGasProbe(evm *EVM, contract *Contract, op OpCode, stack []uint256.Int, memLen uint64) (memorySize uint64, dynamicGas uint64, status string) {
+	in, ok := evm.interpreter.(*EVMInterpreter)
+	if !ok || in.jumpTable[op] == nil {
+		return 0, 0, "undefined"
+	}
+	operation := in.jumpTable[op]
+	st := newstack()
+	defer returnStack(st)
+	st.data = append(st.data, stack...)
+	mem := NewMemory()
+	if memLen > 0 {
+		if _, err := memoryGasCost(mem, memLen); err != nil {
+			return 0, 0, "err:" + err.Error()
+		}
+		mem.Resize(toWordSize(memLen) * 32)
+	}
+	if operation.memorySize != nil {
+		memSize, overflow := operation.memorySize(st)
+		if overflow {
+			return 0, 0, "memsize-overflow"
+		}
+		if memorySize, overflow = safeMulVerif(toWordSize(memSize), 32); overflow {
+			return 0, 0, "memsize-mul-overflow"
+		}
+	}
+	if operation.dynamicGas != nil {
+		g, err := operation.dynamicGas(evm, contract, st, mem, memorySize)
+		if err != nil {
+			return memorySize, 0, "err:" + err.Error()
+		}
+		dynamicGas = g
+	}
+	return memorySize, dynamicGas, "ok"
+}
+
+func safeMulVerif(x, y uint64) (uint64, bool) {
+	if x == 0 || y == 0 {
+		return 0, false
+	}
+	p := x * y
+	return p, p/y != x
+}
